@@ -139,13 +139,13 @@ def build(d, order=None, strings=None):
 
 
 # Extended universe (oracle-only, outside the Lean model's PyVal): ["x", kind, payload].  Shapes of the payload:
-X_SEQ = {"dq", "lsub", "tsub", "nt_point", "nt_pair", "sl", "slots", "red", "gs"}   # [desc…], order is part of the value
-X_USET = {"ssub", "zsub"}                                                          # [desc…], a hash container: order is NOT
+X_SEQ = {"dq", "lsub", "tsub", "lsub2", "tsub2", "nt_point", "nt_pair", "sl", "slots", "red", "gs"}   # [desc…], order is part of the value
+X_USET = {"ssub", "zsub", "ssub2", "zsub2"}                                                        # [desc…], a hash container: order is NOT
 X_PAIRS_ORD = {"od"}                                                               # [[k, v]…] OrderedDict (see `canon`)
-X_PAIRS = {"dsub", "ddi", "ddl", "ctr"}                                            # [[k, v]…] hash containers
+X_PAIRS = {"dsub", "dsub2", "ddi", "ddl", "ctr"}                                          # [[k, v]…] hash containers
 X_ATTRS = {"obj", "obj2"}                                                          # [[name, vdesc]…] instance __dict__
 X_RAW = {"enum", "dec", "frac", "cx", "rg", "ba"}                                  # JSON scalars
-X_HASHABLE = {"tsub", "nt_point", "nt_pair", "zsub", "enum", "dec", "frac", "cx", "rg", "obj", "obj2", "slots", "red", "gs"}
+X_HASHABLE = {"tsub", "tsub2", "zsub2", "nt_point", "nt_pair", "zsub", "enum", "dec", "frac", "cx", "rg", "obj", "obj2", "slots", "red", "gs"}
 
 
 def _order(parts, order):
@@ -163,10 +163,10 @@ def build_x(kind, p, order, strings):
         xs = [b(x) for x in p]
         if kind == "dq":
             return collections.deque(xs)
-        if kind == "lsub":
-            return T.ListSub(xs)
-        if kind == "tsub":
-            return T.TupleSub(xs)
+        if kind in ("lsub", "lsub2"):
+            return (T.ListSub if kind == "lsub" else T.ListSub2)(xs)
+        if kind in ("tsub", "tsub2"):
+            return (T.TupleSub if kind == "tsub" else T.TupleSub2)(xs)
         if kind == "nt_point":
             return T.Point(*xs)
         if kind == "nt_pair":
@@ -181,11 +181,11 @@ def build_x(kind, p, order, strings):
             return T.Stateful(xs[0])
     if kind in X_USET:
         xs = [b(x) for x in _order(p, order)]
-        return T.SetSub(xs) if kind == "ssub" else T.FrozenSub(xs)
+        return dict(ssub=T.SetSub, ssub2=T.SetSub2, zsub=T.FrozenSub, zsub2=T.FrozenSub2)[kind](xs)
     if kind == "od":
         return collections.OrderedDict([(b(k), b(v)) for k, v in p])
     if kind in X_PAIRS:
-        out = {"dsub": T.DictSub, "ddi": lambda: collections.defaultdict(int), "ddl": lambda: collections.defaultdict(list),
+        out = {"dsub": T.DictSub, "dsub2": T.DictSub2, "ddi": lambda: collections.defaultdict(int), "ddl": lambda: collections.defaultdict(list),
                "ctr": collections.Counter}[kind]()
         for k, v in _order(p, order):
             out[b(k)] = b(v)
@@ -408,7 +408,8 @@ DEC_LEAVES = ["0", "1", "1.0", "1.5", "-1", "1E+2", "100", "0.1", "255", "Infini
 
 def gen_x_hashable(rng, depth):
     """Hashable values of the extended universe."""
-    k = rng.choice(["enum", "enum", "dec", "frac", "cx", "rg", "nt_point", "nt_pair", "tsub", "zsub", "obj", "obj2", "slots", "red", "gs"])
+    k = rng.choice(["enum", "enum", "dec", "frac", "cx", "rg", "nt_point", "nt_pair", "tsub", "tsub2", "zsub", "zsub2", "obj", "obj2", "slots",
+                    "red", "gs"])
     if k == "enum":
         return ["x", k, rng.choice(ENUM_NAMES)]
     if k == "dec":
@@ -424,9 +425,9 @@ def gen_x_hashable(rng, depth):
         return ["x", k, [sub(), sub()]]
     if k == "gs":
         return ["x", k, [sub()]]
-    if k == "tsub":
+    if k in ("tsub", "tsub2"):
         return ["x", k, [sub() for _ in range(rng.choice([0, 1, 2, 3, 4]))]]
-    if k == "zsub":
+    if k in ("zsub", "zsub2"):
         return ["x", k, gen_keys(rng, max(depth - 1, 0), rng.choice([0, 1, 2, 3, 4]))]
     names = rng.sample(["a", "b", "c", "x", "_sequence", "payload"], rng.choice([0, 1, 2, 3]))
     return ["x", k, [[n, sub()] for n in names]]
@@ -439,14 +440,15 @@ def gen_x_value(rng, depth):
         return gen_x_hashable(rng, depth)
     n = rng.choice([0, 1, 1, 2, 2, 3, 4])
     sub = lambda: gen_value(rng, depth - 1)  # noqa: E731
-    k = rng.choice(["od", "od", "od", "dsub", "dsub", "ddi", "ddl", "ctr", "dq", "lsub", "ssub", "ssub", "sl", "ba", "obj", "gs", "red", "slots"])
-    if k in ("od", "dsub", "ddi", "ddl"):
+    k = rng.choice(["od", "od", "od", "dsub", "dsub", "dsub2", "ddi", "ddl", "ctr", "dq", "lsub", "lsub2", "ssub", "ssub", "ssub2", "sl", "ba", "obj",
+                    "gs", "red", "slots"])
+    if k in ("od", "dsub", "dsub2", "ddi", "ddl"):
         return ["x", k, [[key, sub()] for key in gen_keys(rng, depth - 1, n)]]
     if k == "ctr":
         return ["x", k, [[key, _i(rng.choice([1, 1, 2, 3, 255, 256]))] for key in gen_keys(rng, depth - 1, n)]]
-    if k in ("dq", "lsub"):
+    if k in ("dq", "lsub", "lsub2"):
         return ["x", k, [sub() for _ in range(n)]]
-    if k == "ssub":
+    if k in ("ssub", "ssub2"):
         return ["x", k, gen_keys(rng, depth - 1, n)]
     if k == "sl":
         return ["x", k, [rng.choice([["N"], _i(0), _i(1), _i(2)]) for _ in range(3)]]
@@ -606,14 +608,15 @@ def corpus_x():
     mixed = [[_i(1), _s("x")], [_s("a"), _s("y")]]
     fz = [[["z", [_s("k")]], _i(1)], [["z", [_s("j")]], _i(2)]]
     out = []
-    for kind in ("od", "dsub", "ddi", "ddl"):
+    for kind in ("od", "dsub", "ddi", "ddl", "dsub2"):
         out += [_x(kind, []), _x(kind, [a1]), _x(kind, [a2]), _x(kind, [b1]), _x(kind, [a1, b1]), _x(kind, [b1, a1]), _x(kind, mixed),
                 _x(kind, [mixed[1], mixed[0]]), _x(kind, [[_i(1), _s("x")]]), _x(kind, fz), _x(kind, [fz[0]]),
                 ["l", [_x(kind, [a1]), _x(kind, [a2])]], ["d", [[_s("k"), _x(kind, [a1])]]], ["d", [[_s("k"), _x(kind, [])]]]]
     out += [["d", [a1]], ["d", [a1, b1]], ["d", mixed]]
     out += [_x("ctr", []), _x("ctr", [a1]), _x("ctr", [a2]), _x("ctr", [a1, b1]), _x("ctr", [[_i(1), _i(1)], [_s("a"), _i(1)]])]
     one, two = _i(1), _i(2)
-    for kind, plain in (("dq", "l"), ("lsub", "l"), ("tsub", "t"), ("ssub", "e"), ("zsub", "z")):
+    for kind, plain in (("dq", "l"), ("lsub", "l"), ("tsub", "t"), ("ssub", "e"), ("zsub", "z"), ("lsub2", "l"), ("tsub2", "t"), ("ssub2", "e"),
+                        ("zsub2", "z")):
         out += [_x(kind, []), _x(kind, [one]), _x(kind, [two]), _x(kind, [one, two]), [plain, []], [plain, [one]], [plain, [one, two]],
                 _x(kind, [_s("a"), _s("b"), _s("c"), _s("d")]), _x(kind, [one, _s("a")])]
     out += [_x("ssub", [["z", [_s("a")]], ["z", [_s("b")]]]), _x("zsub", [["t", [["z", [_s("a")]]]], ["t", [["z", [_s("b")]]]]]),
@@ -735,7 +738,8 @@ def run_workers(cases):
 def container_tag(d):
     """Which kind of hash container the value holds (most specific first): the classification of an unstable digest."""
     ks = kinds(d)
-    for k, name in (("x:ssub", "set-subclass"), ("x:zsub", "frozenset-subclass"), ("x:od", "OrderedDict"), ("x:dsub", "dict-subclass"),
+    for k, name in (("x:ssub", "set-subclass"), ("x:ssub2", "set-subclass"), ("x:zsub", "frozenset-subclass"), ("x:zsub2", "frozenset-subclass"),
+                    ("x:dsub2", "dict-subclass"), ("x:od", "OrderedDict"), ("x:dsub", "dict-subclass"),
                     ("x:ddi", "defaultdict"), ("x:ddl", "defaultdict"), ("x:ctr", "Counter")):
         if k in ks:
             return name
@@ -755,7 +759,8 @@ def container_tag(d):
 TYPE_NAME = dict(N="None", b="bool", i="int", f="float", s="str", y="bytes", l="list", t="tuple", e="set", z="frozenset", d="dict")
 
 
-X_NAME = dict(od="OrderedDict", dsub="dict-subclass", ddi="defaultdict", ddl="defaultdict", ctr="Counter", dq="deque", lsub="list-subclass",
+X_NAME = dict(dsub2="dict-subclass", lsub2="list-subclass", tsub2="tuple-subclass", ssub2="set-subclass", zsub2="frozenset-subclass",
+              od="OrderedDict", dsub="dict-subclass", ddi="defaultdict", ddl="defaultdict", ctr="Counter", dq="deque", lsub="list-subclass",
               tsub="tuple-subclass", ssub="set-subclass", zsub="frozenset-subclass", nt_point="namedtuple", nt_pair="namedtuple",
               enum="enum", dec="Decimal", frac="Fraction", cx="complex", rg="range", sl="slice", ba="bytearray", obj="object",
               obj2="object", slots="slots-object", red="reduce-object", gs="getstate-object")
